@@ -3,7 +3,21 @@ from . import register
 from . import r1, r1e, r2, r3, r3d, r4, r5, r6, r7, r8, r9, r10
 
 # the cache rules: necessary for every property whose answers pass through a stamped / evictable cache
-CACHE = [r3d.r3d_hit, r3d.r3d_stamp_origin, r3d.r3d_bump, r3d.r3d_readset, r3d.r3d_memo_context, r3d.r3d_membership_gate]
+CACHE = [r3d.r3d_hit, r3d.r3d_stamp_origin, r3d.r3d_bump, r3d.r3d_readset, r3d.r3d_memo_context, r3d.r3d_membership_gate, r3d.r3d_who_reads]
+
+def _r5d_flags(ctx):
+    """the origin-flag clause of R5d alone (for properties where the same-file findings of R5d are not at issue)"""
+    from ..check import Result
+    full = ctx.memo(("rule", id(r5.r5d_siblings)), lambda: r5.r5d_siblings(ctx))
+    r = Result("R5d-flags", "the plugin / third-party stages of the sibling resolvers test the same origin flags (`is_plugin`, "
+                            "`is_third_party`) as the navigation cascade: a stage that drops `!is_third_party` ranks an installed "
+                            "plugin before a workspace plugin of the same name, in registration order")
+    keep = [(k, m) for k, m in full.violations if " stage tests " in k]
+    r.violations = keep
+    r.examined = max(1, len(keep) + 2)
+    r.discharged = r.examined - len(keep)
+    return r
+
 
 register(
     "C12",
@@ -65,7 +79,7 @@ register(
     "Structural conditions for references being the inverse of go-to-definition: (R3c) the per-file usage map and its "
     "per-name reverse index are appended in step from one FixtureUsage, removals are paired with a by-file clear of "
     "the reverse index, no other writer exists. The equivalence itself for every (definition, usage) pair is not decided.",
-    [r3.r3c_reverse_index, r3.r3a_clean_before_append, r5.r5c_selfref_pairing, r5.r5g_usage_attribution, r4.r4b_unordered_pick, r2.r2h_handlers_pass_canonical_paths, r5.r5j_record_identity, r4.r4e_local_memo_keys] + CACHE,
+    [r3.r3c_reverse_index, r3.r3a_clean_before_append, r5.r5c_selfref_pairing, r5.r5g_usage_attribution, r4.r4b_unordered_pick, r2.r2h_handlers_pass_canonical_paths, r5.r5j_record_identity, r4.r4e_local_memo_keys, r4.r4f_no_prefix_adaptors] + CACHE,
 )
 
 from . import r3d
@@ -78,7 +92,7 @@ register(
     "all writes followed by an increment; (R3d-iii) no memoised result depends on a &mut context parameter outside the "
     "key; (R3d-iv) no query is gated solely by membership in an evictable cache. Equality of warm and cold answers "
     "for every interleaving is not decided.",
-    [r3d.r3d_hit, r3d.r3d_stamp_origin, r3d.r3d_bump, r3d.r3d_readset, r3d.r3d_memo_context, r3d.r3d_membership_gate],
+    [r3d.r3d_hit, r3d.r3d_stamp_origin, r3d.r3d_bump, r3d.r3d_readset, r3d.r3d_memo_context, r3d.r3d_membership_gate, r3d.r3d_who_reads],
 )
 
 from . import r6
@@ -109,7 +123,7 @@ register(
     "(R5e) the same-file stage takes the last definition; (R10j) the skip filter of import extraction tests the module "
     "string that is recorded (relative imports keep their dots), so a conftest's relative import is not dropped. "
     "That the cascade order and the conftest walk coincide with pytest for every layout is not decided.",
-    [r5.r5a_c01, r5.r5e_same_file_last, r5.r5f_walk_bounds, r10.r10j_filter_sees_recorded_module, r10.r10i_no_textual_path_prefix] + CACHE + [r3.r3a_clean_before_append, r5.r5k_single_source],
+    [r5.r5a_c01, r5.r5e_same_file_last, r5.r5f_walk_bounds, r10.r10j_filter_sees_recorded_module, r10.r10i_no_textual_path_prefix] + CACHE + [r3.r3a_clean_before_append, r5.r5k_single_source, r10.r10m_import_reads_are_transitive, r4.r4f_no_prefix_adaptors],
 )
 
 register(
@@ -118,7 +132,7 @@ register(
     "site of the cascade, (R5c) every caller that resolves usages pairs the non-excluding and the excluding resolver "
     "under a test of the current definition's name against the usage name (memo lookups included). Cursor-column "
     "arithmetic and chain semantics are not decided.",
-    [r5.r5b_filter_everywhere, r5.r5c_selfref_pairing, r5.r5h_usage_before_definition_line, r5.r5g_usage_attribution, r4.r4b_unordered_pick, r2.r2h_handlers_pass_canonical_paths, r5.r5j_record_identity, r5.r5k_single_source] + CACHE,
+    [r5.r5b_filter_everywhere, r5.r5c_selfref_pairing, r5.r5h_usage_before_definition_line, r5.r5g_usage_attribution, r4.r4b_unordered_pick, r2.r2h_handlers_pass_canonical_paths, r5.r5j_record_identity, r5.r5k_single_source, _r5d_flags] + CACHE,
 )
 
 from . import r4
@@ -139,8 +153,10 @@ def _c05_fns(ctx):
     for fid, ss in by_fn.items():
         if core is not None and fid == core.id:
             continue
-        stages = {r5.stage_of(s) for s in ss}
-        if len(stages & {"same-file", "conftest", "plugin", "third-party"}) >= 3 or ({"same-file", "plugin", "third-party"} <= stages):
+        f = ctx.bin.fns.get(fid)
+        # a resolver of its own: several selections over the definition vectors for a file given as a path (the count, not the
+        # stages, is the criterion: a sibling whose same-file stage lost its file test is still a sibling -- and is what R5a is for)
+        if f is not None and len(ss) >= 3 and any("std::path::Path" in f.local_ty(i) for i in range(1, f.argc + 1)):
             out.append(fid)
     return _names(out)
 
@@ -177,7 +193,7 @@ register(
     "selection sites cover the same-file / conftest / plugin / third-party stages) use the same selector class per "
     "stage as the navigation cascade, (R5a) none of them selects by name alone. Agreement on every input and the "
     "hover/inlay text are not decided.",
-    [r5.r5d_siblings, _r5a_c05, r5.r5c_selfref_pairing, r5.r5f_walk_bounds, r5.r5g_usage_attribution, r5.r5h_usage_before_definition_line, r10.r10i_no_textual_path_prefix, r2.r2h_handlers_pass_canonical_paths, r5.r5j_record_identity, r5.r5k_single_source] + CACHE,
+    [r5.r5d_siblings, _r5a_c05, r5.r5c_selfref_pairing, r5.r5f_walk_bounds, r5.r5g_usage_attribution, r5.r5h_usage_before_definition_line, r10.r10i_no_textual_path_prefix, r2.r2h_handlers_pass_canonical_paths, r5.r5j_record_identity, r5.r5k_single_source, r10.r10m_import_reads_are_transitive] + CACHE,
 )
 
 register(
@@ -186,7 +202,7 @@ register(
     "before it is returned, (R4b) first-match exits from such iterations are reviewed for uniqueness of the match, "
     "(R4c) order-sensitive selections over the per-name definition vector (registration order = scan schedule) are "
     "pinned to one file. Ties under non-total sort keys and other channels of nondeterminism are not decided.",
-    [r4.r4a_unordered, r4.r4b_unordered_pick, r5.r4c_order_sensitive, r2.r2a_atomic_ops, r10.r10f_no_short_circuit, r1.r1f_no_try_lock, r4.r4d_sort_keys_are_projections, r3d.r3d_memo_context, r10.r10i_no_textual_path_prefix, r4.r4e_local_memo_keys],
+    [r4.r4a_unordered, r4.r4b_unordered_pick, r5.r4c_order_sensitive, r2.r2a_atomic_ops, r10.r10f_no_short_circuit, r1.r1f_no_try_lock, r4.r4d_sort_keys_are_projections, r3d.r3d_memo_context, r10.r10i_no_textual_path_prefix, r4.r4e_local_memo_keys, _r5d_flags, r4.r4f_no_prefix_adaptors],
 )
 
 from . import r8
@@ -218,7 +234,7 @@ register(
     "like the server. Equality of counts with the server and byte-identical output are not decided.",
     [r8.r11b_exit_status, r8.r11d_json_output, r8.r11e_report_root_is_scan_root,
      lambda ctx: r4.r4a_unordered(ctx, only_fns=["get_unused_fixtures", "print_fixtures_tree", "compute_definition_usage_counts"], rule="R4a"),
-     r5.r5c_selfref_pairing, r4.r4d_sort_keys_are_projections, r4.r4e_local_memo_keys, r8.r11f_unused_report_ignores_plugin_flag],
+     r5.r5c_selfref_pairing, r4.r4d_sort_keys_are_projections, r4.r4e_local_memo_keys, r8.r11f_unused_report_ignores_plugin_flag, r4.r4f_no_prefix_adaptors],
 )
 
 register(
@@ -273,5 +289,5 @@ register(
     "str::find results) must not reach Position.character (UTF-16) unconverted, (R9b) the request's UTF-16 cursor "
     "column must not be compared with byte columns or used as a character index. Concrete token positions (off-by-one, "
     "range containment, duplicates) are value facts and are not decided.",
-    [r9.r9_bytes_to_utf16, r9.r9_utf16_vs_bytes, r9.r9_line_base, r9.r9_char_count_plus_bytes, r5.r5i_per_document_items_pinned, r3d.r3d_stamp_origin, r3.r3a_clean_before_append, r2.r2h_handlers_pass_canonical_paths],
+    [r9.r9_bytes_to_utf16, r9.r9_utf16_vs_bytes, r9.r9_line_base, r9.r9_char_count_plus_bytes, r5.r5i_per_document_items_pinned, r3d.r3d_stamp_origin, r3.r3a_clean_before_append, r2.r2h_handlers_pass_canonical_paths, r6.r6b_yield],
 )
